@@ -10,6 +10,9 @@ import (
 	"time"
 
 	"github.com/nuts-foundation/go-did/vc"
+	"github.com/nuts-foundation/nuts-node/audit"
+	vcrapi "github.com/nuts-foundation/nuts-node/vcr/api/vcr/v2"
+	"github.com/nuts-foundation/nuts-node/vcr/credential"
 )
 
 type verdict struct {
@@ -17,6 +20,10 @@ type verdict struct {
 	Err      string `json:"err,omitempty"`
 	Panic    string `json:"panic,omitempty"`
 	ParseErr bool   `json:"parse_err,omitempty"`
+	// presentations: the credentials the node hands out as verified, and those of them that the node's own
+	// Verifier.Verify refuses when asked about them one by one (same flags, same validation time)
+	Returned        int      `json:"returned,omitempty"`
+	ReturnedInvalid []string `json:"returned_invalid,omitempty"`
 }
 
 // verifyVC feeds the serialised credential to the node the way the REST API does (vc.VerifiableCredential.UnmarshalJSON
@@ -47,10 +54,97 @@ func (n *node) verifyVP(raw string, verifyVCs, allowUntrusted bool, at *time.Tim
 	if err != nil {
 		return verdict{Err: "parse: " + err.Error(), ParseErr: true}
 	}
-	if _, err := n.verifier.VerifyVP(*pres, verifyVCs, allowUntrusted, at); err != nil {
+	creds, err := n.verifier.VerifyVP(*pres, verifyVCs, allowUntrusted, at)
+	if err != nil {
 		return verdict{Err: err.Error()}
 	}
-	return verdict{Accept: true}
+	v = verdict{Accept: true, Returned: len(creds)}
+	if verifyVCs {
+		var raws []string
+		for _, c := range creds {
+			b, _ := json.Marshal(c)
+			raws = append(raws, string(b))
+		}
+		v.ReturnedInvalid = n.checkReturned(raws, allowUntrusted, at)
+	}
+	return v
+}
+
+// checkReturned: every credential a node reports as verified must verify on its own.
+func (n *node) checkReturned(raws []string, allowUntrusted bool, at *time.Time) []string {
+	var bad []string
+	for i, raw := range raws {
+		raw = strings.TrimSpace(raw)
+		if strings.HasPrefix(raw, `"`) {
+			var s string
+			_ = json.Unmarshal([]byte(raw), &s)
+			raw = s
+		}
+		if r := n.verifyVC(raw, allowUntrusted, true, at); !r.Accept {
+			bad = append(bad, fmt.Sprintf("credential %d of the verified list: %s%s", i, r.Err, r.Panic))
+		}
+	}
+	return bad
+}
+
+// verifyVPAPI goes through the REST handler of POST /internal/vcr/v2/verifier/vp: the request body is decoded from JSON
+// the way the echo binder does it and the JSON response is what a client sees.
+func (n *node) verifyVPAPI(raw string, at *time.Time) (v verdict) {
+	defer func() {
+		if r := recover(); r != nil {
+			v = verdict{Panic: fmt.Sprintf("%v\n%s", r, firstFrames(debug.Stack()))}
+		}
+	}()
+	body := map[string]any{}
+	raw = strings.TrimSpace(raw)
+	if strings.HasPrefix(raw, "{") {
+		body["verifiablePresentation"] = json.RawMessage(raw)
+	} else {
+		body["verifiablePresentation"] = raw
+	}
+	if at != nil {
+		body["validAt"] = at.Format(time.RFC3339)
+	}
+	reqJSON, _ := json.Marshal(body)
+	var req vcrapi.VPVerificationRequest
+	if err := json.Unmarshal(reqJSON, &req); err != nil {
+		return verdict{Err: "parse: " + err.Error(), ParseErr: true}
+	}
+	resp, err := n.api.VerifyVP(audit.TestContext(), vcrapi.VerifyVPRequestObject{Body: &req})
+	if err != nil {
+		return verdict{Err: "api error: " + err.Error()}
+	}
+	respJSON, err := json.Marshal(resp)
+	if err != nil {
+		return verdict{Err: "api response: " + err.Error()}
+	}
+	var out struct {
+		Validity    bool              `json:"validity"`
+		Message     *string           `json:"message"`
+		Credentials []json.RawMessage `json:"credentials"`
+	}
+	if err := json.Unmarshal(respJSON, &out); err != nil {
+		return verdict{Err: "api response: " + err.Error()}
+	}
+	if !out.Validity {
+		msg := ""
+		if out.Message != nil {
+			msg = *out.Message
+		}
+		return verdict{Err: msg}
+	}
+	v = verdict{Accept: true, Returned: len(out.Credentials)}
+	// the handler allows untrusted issuers unless the presenter is a did:nuts DID
+	allowUntrusted := true
+	if signer, err := credential.PresentationSigner(req.VerifiablePresentation); err == nil && signer.Method == "nuts" {
+		allowUntrusted = false
+	}
+	var raws []string
+	for _, c := range out.Credentials {
+		raws = append(raws, string(c))
+	}
+	v.ReturnedInvalid = n.checkReturned(raws, allowUntrusted, at)
+	return v
 }
 
 func firstFrames(stack []byte) string {
